@@ -15,13 +15,15 @@ HARNESS = ["console/c19_trace_test.go"]
 PKG = "device/video/console"
 DEVS = {"ScrollCopiesPadding": "C19_DEV_SCROLLPAD", "Pack32HighByte": "C19_DEV_PACK32", "VgaWriteBg15": "C19_DEV_VGABG15"}
 ALL_BUGS = ["FillClipWraps", "ScrollCopiesPadding", "WriteXGe", "OffsetIgnoresLogo", "MaskNotReset", "Pack15As16",
-            "ScrollCopiesLogo", "FillClipWidthAgainstRows", "GridIgnoresLogo", "VgaBg15", "VgaColor16"]
+            "ScrollCopiesLogo", "FillClipWidthAgainstRows", "GridIgnoresLogo", "VgaBg15", "VgaColor16", "EmptyGridUnguarded", "PackWideMaskZero", "Pack32ThreeBytes"]
 ASSUME = [
-    "the grid has at least one column and one row (the framebuffer holds at least one glyph cell below the logo), pitch >= width * bytes per pixel, the logo fits inside the framebuffer",
-    "colour masks are 1-8 bits wide, do not overlap and lie inside the pixel; only bits covered by a mask are constrained in a painted pixel (bit 15 of a 15-bpp pixel and the X byte of an XRGB pixel are don't-care bits)",
+    "pitch >= width * bytes per pixel; the logo is not taller than the framebuffer (SetLogo itself cannot draw a taller one); grids WITHOUT cells are inside the domain (framebuffer narrower than a glyph, no room for a text line below the logo, logo filling the framebuffer, text consoles with 0 columns or rows): Write and Fill must not change anything there",
+    "colour masks: three non-overlapping fields inside the pixel, 0-8 bits wide (up to 12 bits in a 32-bit pixel; wider fields are not generated); only bits covered by a mask are constrained in a painted pixel (bit 15 of a 15-bpp pixel and the X byte of an XRGB pixel are don't-care bits); a field narrower than 8 bits holds the top bits of the component, in a wider field the component is left-justified and the low bits are don't-care",
+    "fonts: 8-16 pixels wide, 1-28 pixels high, 256 glyphs, BytesPerRow = ceil(GlyphWidth/8) as in every shipped font (a font whose rows carry extra padding bytes is not generated)",
     "text console: Write with a colour index above 15 must store the console's default colour (documented on Write; DefaultColors() is logged per case); Fill documents nothing for indices above 15, so for those only the extent of the change is constrained; Fill content of a text cell is the console's clear character in the requested colours; the framebuffer palette has 256 entries, every uint8 is a valid index",
     "visible pixels that belong to no cell (the margin right of the last whole cell column and the pixel rows below the last whole text line) are unconstrained for every operation: the statement speaks about cells; they only have to stay inside the framebuffer and are not padding",
-    "Scroll: the vacated lines are unconstrained (the caller repaints them); logo rows and row padding must keep their bytes",
+    "Scroll: the vacated lines are unconstrained (the caller repaints them); logo rows and row padding must keep their bytes; only the directions up and down are driven",
+    "not covered: framebuffers wider than 200 px or higher than ~60 px (real screen sizes; byte-exact validation of megabyte buffers is too expensive - the drivers contain no size threshold between the covered sizes and 2^32-byte offsets), text grids beyond 132x60, calls before SetFont",
     "trusted Go: construction of the consoles through DriverInit/SetLogo/SetFont over host memory, the diff/guard projection and the event writer in harness/console (no expected results in them); a periodic full checkpoint cross-checks the diff projection against the monitor's reconstruction",
     "non-termination is decided by process CPU time of an isolated child (1.5 s per call), not wall clock",
 ]
@@ -42,6 +44,20 @@ PINNED = [
     dict(FB16, id=907, calls=[[1, 2, 1, M32 - 1, 1, 0, 9], [1, 1, 2, 1, M32 - 1, 0, 9]]),
     {"id": 908, "cons": "fb", "w": 17, "h": 5, "pitch": 70, "bpp": 32, "ci": [24, 8, 16, 8, 8, 8], "gw": 8, "gh": 2, "offY": 0,
      "calls": [[0, 1, 200, 7, 1, 1], [1, 1, 1, 2, 2, 0, 9], [2, 0, 1]]},      # colour component in byte 3 of the pixel
+]
+# quantifier audit: grids without cells and colour fields wider than the 8-bit palette components
+FB8 = {"cons": "fb", "pitch": 11, "bpp": 8, "ci": [0] * 6, "gw": 8, "gh": 2}
+PINNED += [
+    dict(FB8, id=910, w=5, h=5, offY=0, calls=[[1, 1, 1, 1, 1, 0, 9]]),           # narrower than a glyph: 0 columns
+    dict(FB8, id=911, w=9, h=2, offY=1, calls=[[1, 1, 1, 1, 1, 0, 9]]),           # no room for a text line: 0 rows
+    dict(FB8, id=912, w=9, h=3, offY=3, calls=[[0, 1, 2, 3, 1, 1], [1, 2, 2, 1, 1, 0, 9], [2, 0, 1], [2, 1, 0]]),   # logo fills it
+    dict(VGA43, id=913, w=0, pitch=0, calls=[[1, 1, 1, 1, 1, 7, 1]]),             # text console without columns
+    dict(VGA43, id=914, w=0, pitch=0, calls=[[2, 1, 1]]),
+    dict(VGA43, id=915, h=0, calls=[[1, 1, 1, 1, 1, 7, 1], [2, 1, 1], [0, 65, 7, 1, 1, 1]]),
+    {"id": 916, "cons": "fb", "w": 17, "h": 5, "pitch": 70, "bpp": 32, "ci": [20, 10, 10, 10, 0, 10], "gw": 8, "gh": 2, "offY": 0,
+     "calls": [[0, 1, 200, 7, 1, 1], [1, 1, 1, 2, 2, 0, 9]]},                     # 2:10:10:10
+    {"id": 917, "cons": "fb", "w": 17, "h": 5, "pitch": 37, "bpp": 16, "ci": [11, 5, 5, 0, 0, 5], "gw": 8, "gh": 2, "offY": 0,
+     "calls": [[0, 1, 200, 7, 1, 1], [1, 1, 1, 2, 2, 0, 9]]},                     # a component without bits
 ]
 PINNED_MIN_ID = 900
 
@@ -215,7 +231,7 @@ def run(ctx):
     q = ctx.quick
     ctx.assumptions += ASSUME
     ctx.rule = ("one execution = one Write/Fill/Scroll call on a console of some geometry with 32-bit arguments; leg G replays every call TLC "
-                "explored in the small scope (grids <= 3x3, fonts 8x2/9x2, padded rows, depths 8/15/16/24/32, arguments 0..4, 2^31, 2^32-2, 2^32-1) "
+                "explored in the small scope (grids 0x2 .. 3x3, fonts 8x2/9x2/16x2, padded and unpadded rows, depths 8/15/16/24/32, mask fields of 0-10 bits, arguments 0..4, 2^31, 2^32-2, 2^32-1 and limb-boundary values) "
                 "plus the pinned reproducers; leg T draws seeded random geometries at real scale (width 8-70 px, height up to 60 px, pitch up to +17, "
                 "five depths, several mask layouts, shipped and synthetic fonts, logo heights 0/5/13, text consoles up to 80x25) with 200 calls each; "
                 "an execution is distinct by geometry + arguments and non-trivial when it changed the buffer")
@@ -228,6 +244,7 @@ def run(ctx):
     ctx.model_check(d, "MCConsole", "MCConsoleQuick" if q else "MCConsoleFull", env={"CASES": cases}, timeout=1500)
     if not q:
         ctx.model_check(d, "MCConsole", "MCConsoleHist", env={"CASES": os.devnull}, timeout=900)
+        ctx.model_check(d, "MCConsole", "MCConsoleLimb", env={"CASES": cases}, timeout=900)     # appends to the emitted cases
     for b in (["FillClipWraps", "ScrollCopiesPadding"] if q else ALL_BUGS):
         ctx.expect_model_violation(d, "MCConsole", "MCConsoleBug_" + b, env={"CASES": os.devnull}, timeout=600, workers=4)
 
